@@ -108,6 +108,7 @@ type Result struct {
 	Samples            []any          `json:"samples"`
 	Mismatches         []Mismatch     `json:"mismatches"`
 	Notes              []string       `json:"notes,omitempty"`
+	shrunk             int
 	WallS              float64        `json:"wall_s"`
 }
 
@@ -167,7 +168,12 @@ func runCases(s Suite, cases []Case, r *Result) {
 				cases = cases[:i]
 				break
 			}
-			r.Mismatches = append(r.Mismatches, Mismatch{Kind: "crash", Case: i, Impl: crashed, Ops: shrinkCrash(s, c.Ops)})
+			ops := c.Ops
+			if r.shrunk < 3 {
+				r.shrunk++
+				ops = shrinkCrash(s, c.Ops)
+			}
+			r.Mismatches = append(r.Mismatches, Mismatch{Kind: "crash", Case: i, Impl: crashed, Ops: ops})
 			dops, res = nil, nil
 		}
 		implRes[i] = res
@@ -217,7 +223,13 @@ func runCases(s Suite, cases []Case, r *Result) {
 		}
 		if first != nil {
 			want := first.Kind
-			first.Ops = shrinkWith(c.Ops, func(o []string) bool { return differsKind(s, o, want) })
+			if r.shrunk < 3 {
+				// minimise the first few failing cases only (each minimisation re-executes the case many times)
+				r.shrunk++
+				first.Ops = shrinkWith(c.Ops, func(o []string) bool { return differsKind(s, o, want) })
+			} else {
+				first.Ops = c.Ops
+			}
 			r.Mismatches = append(r.Mismatches, *first)
 		}
 		off += len(dopsAll[i])
